@@ -591,6 +591,146 @@ def r116(ctx):
             ctx.bad(rid, e, "the number compared with pacc is not a uniform draw from the job's stream", construct="acceptance draw")
 
 
+def r118(ctx):
+    """A propagation that ran out of frames is recognised by the QuanTIS swap. The swap ignores the
+    success flag of engine.propagate and tells an unfinished trajectory only from the length of
+    the pasted path. With a prefix of k frames (created with maxlen=k), a propagation budget B
+    (maxlen of the path handed to propagate) and one shared frame, a truncated propagation gives
+    k + B - 1 frames; the length test that sets the rejecting status must fire for exactly that
+    value (linear arithmetic over the symbols maxlen0 / maxlen1)."""
+    from ..flow import deref
+    rid = "R-11.8"
+    tree = ctx.tree
+    f = tree.func(TIS, "quantis_swap_zero")
+    fl = flow_of(f)
+    cfg = fl.cfg
+    pp = tree.func("infretis/classes/path.py", "paste_paths")
+    pparams = [a.arg for a in pp.args.args]
+    ov_default = None
+    if "overlap" in pparams:
+        di = pparams.index("overlap") - (len(pparams) - len(pp.args.defaults))
+        if 0 <= di < len(pp.args.defaults) and isinstance(pp.args.defaults[di], ast.Constant):
+            ov_default = bool(pp.args.defaults[di].value)
+
+    created = {}  # path name -> list of maxlen expressions it was created with
+    for n in walk_local(f):
+        if isinstance(n, ast.Assign) and len(n.targets) == 1 and isinstance(n.targets[0], ast.Name) and isinstance(n.value, ast.Call) and last_name(n.value) == "empty_path":
+            ml = kwarg(n.value, "maxlen", 0)
+            created.setdefault(n.targets[0].id, []).append((n, ml))
+
+    def lin(e, at, depth=0):
+        if depth > 6 or e is None:
+            return None
+        if isinstance(e, ast.Constant) and isinstance(e.value, int) and not isinstance(e.value, bool):
+            return {1: e.value}
+        if isinstance(e, ast.Name):
+            ds = [d for d in fl.defs if d.path == e.id and d.kind == "assign" and d.value is not None]
+            if len(ds) == 1 and "maxlength" in ast.unparse(ds[0].value):
+                return {e.id: 1}
+            e2, at2 = deref(fl, e, at)
+            if e2 is not e:
+                return lin(e2, at2, depth + 1)
+            return None
+        if isinstance(e, ast.Attribute) and e.attr == "length" and isinstance(e.value, ast.Name) and e.value.id in created:
+            cs = {ast.unparse(ml) for _, ml in created[e.value.id] if ml is not None}
+            if len(cs) == 1:
+                k = lin(created[e.value.id][0][1], at, depth + 1)
+                if k is not None and set(k) <= {1}:
+                    return k  # a prefix created with a constant limit and filled to it
+            return None
+        if isinstance(e, ast.BinOp) and isinstance(e.op, (ast.Add, ast.Sub)):
+            a, b = lin(e.left, at, depth + 1), lin(e.right, at, depth + 1)
+            if a is None or b is None:
+                return None
+            sg = 1 if isinstance(e.op, ast.Add) else -1
+            out = dict(a)
+            for k, v in b.items():
+                out[k] = out.get(k, 0) + sg * v
+            return {k: v for k, v in out.items() if v != 0}
+        return None
+
+    def path_name(e, at=None):
+        if isinstance(e, ast.Name):
+            if e.id not in created and at is not None:
+                e2, _ = deref(fl, e, at)
+                if e2 is not e:
+                    return path_name(e2, None)
+            return e.id
+        if isinstance(e, ast.Call) and isinstance(e.func, ast.Attribute) and e.func.attr in ("reverse", "copy") and isinstance(e.func.value, ast.Name):
+            return e.func.value.id
+        return None
+
+    props = {}  # path name -> propagate call
+    for c in [c for c in walk_local(f) if isinstance(c, ast.Call) and last_name(c) == "propagate" and c.args]:
+        nm = path_name(c.args[0])
+        if nm:
+            props[nm] = c
+    n = 0
+    for st in [x for x in walk_local(f) if isinstance(x, ast.Assign) and isinstance(x.value, ast.Call) and last_name(x.value) == "paste_paths" and len(x.value.args) >= 2 and isinstance(x.targets[0], ast.Name)]:
+        c = st.value
+        a0, a1 = path_name(c.args[0], cfg.node_of(st)), path_name(c.args[1], cfg.node_of(st))
+        def const_limit(nm):
+            return nm in created and all(isinstance(ml, ast.Constant) and isinstance(ml.value, int) for _, ml in created[nm])
+        pre = [x for x in (a0, a1) if x in created and const_limit(x)]
+        bud = [x for x in (a0, a1) if x in props and x in created and x not in pre]
+        if len(bud) != 1 or len(pre) != 1:
+            continue
+        at = cfg.node_of(st)
+        ovv = kwarg(c, "overlap", 2)
+        ov = ov_default if ovv is None else (bool(ovv.value) if isinstance(ovv, ast.Constant) else None)
+        # the budget: the creation of the budgeted path that reaches the propagate call
+        pn = cfg.node_of(props[bud[0]])
+        bdefs = [(cn, ml) for cn, ml in created[bud[0]] if cfg.reaches(cfg.node_of(cn), pn)]
+        Bs = {ast.unparse(ml) for _, ml in bdefs if ml is not None}
+        if len(Bs) != 1 or ov is None:
+            raise AnalysisError("R-11.8: budget / overlap of a pasted propagation in quantis_swap_zero could not be resolved")
+        Bl = lin(bdefs[0][1], cfg.node_of(bdefs[0][0]))
+        kl = lin(ast.Attribute(value=ast.Name(id=pre[0], ctx=ast.Load()), attr="length", ctx=ast.Load()), at)
+        if Bl is None or kl is None:
+            raise AnalysisError(f"R-11.8: budget `{Bs}` or prefix length of `{pre[0]}` is not linear in the length limits")
+        total = dict(Bl)
+        for k, v in kl.items():
+            total[k] = total.get(k, 0) + v
+        total[1] = total.get(1, 0) - (1 if ov else 0)
+        total = {k: v for k, v in total.items() if v != 0}
+        # the rejecting length test on the pasted path
+        tgt = st.targets[0].id
+        tests = [x for x in walk_local(f) if isinstance(x, ast.Compare) and len(x.ops) == 1 and isinstance(x.ops[0], (ast.Eq, ast.GtE, ast.Gt, ast.LtE, ast.Lt))
+                 and any(isinstance(y, ast.Attribute) and y.attr == "length" and isinstance(y.value, ast.Name) and y.value.id == tgt for y in (x.left, x.comparators[0]))
+                 and cfg.reaches(at, cfg.node_of(x))]
+        big = []
+        for x in tests:
+            other = x.comparators[0] if (isinstance(x.left, ast.Attribute) and x.left.attr == "length") else x.left
+            T = lin(other, cfg.node_of(x))
+            if T is not None and any(k != 1 for k in T):
+                big.append((x, T))
+        if not big:
+            ctx.bad(rid, st, f"the path pasted from `{pre[0]}` and the propagated `{bud[0]}` is never compared with the length limit: a propagation that ran out of frames is accepted", construct=f"quantis_swap_zero: no length test on {tgt}")
+            n += 1
+            continue
+        x, T = big[0]
+        n += 1
+        diff = dict(total)
+        for k, v in T.items():
+            diff[k] = diff.get(k, 0) - v
+        diff = {k: v for k, v in diff.items() if v != 0}
+        op = x.ops[0]
+        length_left = isinstance(x.left, ast.Attribute) and x.left.attr == "length"
+        # truncated length L* = T + d ; the test `length OP T` must hold for L*
+        d = diff.get(1, 0) if set(diff) <= {1} else None
+        if d is None:
+            raise AnalysisError(f"R-11.8: truncated length {total} and tested limit {T} differ by a non-constant")
+        if not length_left:
+            op = {ast.Lt: ast.Gt, ast.Gt: ast.Lt, ast.LtE: ast.GtE, ast.GtE: ast.LtE, ast.Eq: ast.Eq}[type(op)]()
+        fires = {ast.Eq: d == 0, ast.GtE: d >= 0, ast.Gt: d > 0, ast.LtE: False, ast.Lt: False}[type(op)]
+        if fires:
+            ctx.ok(rid, x, f"a propagation of `{bud[0]}` that used up its budget gives a pasted path of {total} frames, for which `{short(x, 40)}` fires: the unfinished trajectory is rejected")
+        else:
+            ctx.bad(rid, x, f"`{bud[0]}` is propagated with the budget {Bl} and pasted to the {kl.get(1, '?')}-frame prefix `{pre[0]}` (one shared frame): a propagation that ran out of frames gives {total} frames, for which the rejecting test `{short(x, 40)}` does not fire - the swap ignores propagate's success flag, so a trajectory that stops between the interfaces is accepted as a valid path", construct=f"quantis_swap_zero: budget of {bud[0]} vs length test on {tgt}")
+    if n < 2:
+        raise AnalysisError(f"R-11.8: only {n} pasted propagations found in quantis_swap_zero (expected 2)")
+
+
 def run(ctx):
     ctx.rule("R-11.4", "QuanTIS acceptance: each energy difference is weighted with the beta of the engine of its own level", floor=2)
     ctx.rule("R-11.5", "the engines' velocity-reversal codecs negate exactly the velocities (shared with C19 R-19.5): time reversal used by the zero swap is an involution", floor=5)
@@ -605,12 +745,17 @@ def run(ctx):
     ctx.attempt(r114, ctx)
     ctx.attempt(r116, ctx)
     ctx.attempt(r117, ctx)
+    ctx.rule("R-11.8", "QuanTIS swap: a propagation that used up its frame budget yields a pasted path for which the rejecting length test fires (prefix + budget - shared frame vs the limit, linear arithmetic)", floor=2)
+    ctx.attempt(r118, ctx)
     from . import c19
     from .shared import RuleProxy
     ctx.attempt(c19.r195, RuleProxy(ctx, "R-11.5", " (a zero swap re-uses stored velocities in the opposite time direction: swapping twice would not restore the order-parameter sequence)"))
 
 
 VARIANTS = [
+    B("c11-quantis-forward-budget-one-short", TIS, "    new_path1 = tmp_path1.empty_path(maxlen=maxlen1 - 1)", "    new_path1 = tmp_path1.empty_path(maxlen=maxlen1 - tmp_path1.length)", "R-11.8", control=True, why="seeded C11_g"),
+    B("c11-quantis-backward-budget-short", TIS, "    new_path0 = tmp_path0.empty_path(maxlen=maxlen0 - 1)", "    new_path0 = tmp_path0.empty_path(maxlen=maxlen0 - 2)", "R-11.8"),
+    K("c11-keep-quantis-budget-respelled", TIS, "    new_path1 = tmp_path1.empty_path(maxlen=maxlen1 - 1)", "    new_path1 = tmp_path1.empty_path(maxlen=maxlen1 - tmp_path1.length + 1)"),
     B("c11-turtle-vpot-per-particle", TURTLE, "        vpot = np.array(thermo[\"vpot\"]) * tmd_system.particles.npart", "        vpot = np.array(thermo[\"vpot\"])", "R-11.7", control=True, why="seeded C11_d"),
     B("c11-lammps-vpot-unsliced", LAMMPS, "        path.update_energies(ekin[:end], vpot[:end])", "        path.update_energies(ekin[:end], vpot)", "R-11.7"),
     B("c11-quantis-exponent-sum", TIS, "    pacc = min(1.0, np.exp(deltaV0 * engine0.beta - deltaV1 * engine1.beta))", "    pacc = min(1.0, np.exp(deltaV0 * engine0.beta + deltaV1 * engine1.beta))", "R-11.6", control=True),
